@@ -416,6 +416,49 @@ func init() {
 					r.State(fmt.Sprintf("patch-history|len=%d", len(seq)))
 					r.Nontrivial(strings.Join(hist, ";"))
 				}},
+				{Name: "repeated-evaluations", N: len(c04RepeatPrograms), Note: fmt.Sprintf("%d programs over collections of 16..40 items (strings, integers, decimals, elements, with duplicates) evaluated 8 times on one compiled expression and on freshly compiled ones: the same items in the same order every time", len(c04RepeatPrograms)), Run: func(i int, r *core.Rec) {
+					src := c04RepeatPrograms[i]
+					big, ints, decs := system.Collection{}, system.Collection{}, system.Collection{}
+					for k := 0; k < 40; k++ {
+						big = append(big, system.String(fmt.Sprintf("s%02d", (k*7)%23)))
+						ints = append(ints, system.Integer(int32((k*5)%17)))
+						decs = append(decs, system.MustParseDecimal(fmt.Sprintf("%d.%d", (k*3)%11, k%3)))
+					}
+					p := lib.Patient()
+					for k := 0; k < 22; k++ {
+						p.Name[0].Given = append(p.Name[0].Given, fhir.String(fmt.Sprintf("G%02d", (k*5)%20)))
+					}
+					env := func() []fhirpath.EvaluateOption {
+						return []fhirpath.EvaluateOption{evalopts.OverrideTime(lib.PinnedNow), evalopts.EnvVariable("big", big), evalopts.EnvVariable("ints", ints), evalopts.EnvVariable("decs", decs)}
+					}
+					shared, err := c04Compile(src)
+					if err != nil {
+						r.Fail("repeated-evaluation|program-does-not-compile", core.W{"src": src, "err": err.Error()})
+						return
+					}
+					first := ""
+					for k := 0; k < 8; k++ {
+						for which, e := range []*fhirpath.Expression{shared, nil} {
+							if e == nil {
+								e, _ = c04Compile(src)
+							}
+							c, everr := e.Evaluate([]fhir.Resource{p}, env()...)
+							r.Eval()
+							got := lib.ShowColl(c)
+							if everr != nil {
+								got = "ERROR"
+							}
+							if k == 0 && which == 0 {
+								first = got
+								r.Nontrivial(src, c04Hash(got))
+							} else if got != first {
+								r.Fail("repeated-evaluation|another-result", core.W{"src": src, "first": core.Short(first, 300), "evaluation": k + 1, "result": core.Short(got, 300)})
+								return
+							}
+						}
+					}
+					r.State("repeated-evaluation")
+				}},
 				{Name: "package-level-patch-histories", N: c10Count(len(c04PkgPatchOps()), 3), Note: fmt.Sprintf("all sequences of length <=3 over %d calls of the package-level FHIRPatch helpers (Delete / Replace / Insert / Add with one path text under different compile options: a custom function bound to first(), to last(), not bound, Permissive): each outcome equals that of the same operation through an expression compiled on the spot with the same options", len(c04PkgPatchOps())), Run: func(i int, r *core.Rec) {
 					ops := c04PkgPatchOps()
 					var hist []string
@@ -953,6 +996,14 @@ func c04PatchOps() []c04PatchOp {
 		{"Add id on contact name of Organization", "contact[0].name", org, add("text", func() fhir.Base { return fhir.String("t") })},
 		{"Add text on contact name of Patient", "contact[0].name", patient, add("text", func() fhir.Base { return fhir.String("t") })},
 	}
+}
+
+var c04RepeatPrograms = []string{
+	"%big.distinct()", "%big.distinct().first()", "%big.distinct().count()", "%big.isDistinct()", "%big.exclude('s00')", "%big.intersect(%big)", "%big.where($this > 's10')", "%big.select($this & 'x').distinct()",
+	"%big.tail().distinct().last()", "%big.skip(3).take(20).distinct()", "%ints.distinct()", "%ints.distinct().first()", "%ints.exclude(3)", "%ints.intersect(%ints.tail())", "%decs.distinct()", "%decs.distinct().last()",
+	"Patient.name.given.distinct()", "Patient.name.given.distinct().first()", "Patient.name.given.exclude('G00')", "Patient.name.given.intersect(Patient.name.given)", "Patient.name.given.upper().distinct()", "Patient.name.given.join(',')",
+	"'the quick brown fox jumps over the lazy dog'.toChars().distinct()", "'the quick brown fox jumps over the lazy dog'.toChars().distinct().first()", "Patient.descendants().count()", "Patient.descendants().where($this is string).distinct().first()",
+	"Patient.children().count()", "Patient.name.given.toChars().distinct().count()", "Patient.name.given.where($this.startsWith('G1')).distinct()", "%big.distinct().select($this.length()).distinct()",
 }
 
 type c04PkgPatchOp struct {
